@@ -98,6 +98,57 @@ func installNatives(it *Interp) {
 		it.out.WriteRune(rune(r))
 		return []Value{int64(1), Nil{}}
 	}
+	// strings.Builder: one Go builder per opaque value
+	builderOf := func(it *Interp, v Value) *strings.Builder {
+		if p, ok := v.(*Ptr); ok {
+			v = p.cell.v
+		}
+		e, ok := v.(*Ext)
+		if !ok || e.desc != "strings.Builder" {
+			panic(undecided{"strings.Builder method on " + describe(v)})
+		}
+		if it.builders == nil {
+			it.builders = map[*Ext]*strings.Builder{}
+		}
+		b := it.builders[e]
+		if b == nil {
+			b = &strings.Builder{}
+			it.builders[e] = b
+		}
+		return b
+	}
+	n["(*strings.Builder).WriteString"] = func(it *Interp, args []Value) []Value {
+		s, _ := args[1].(string)
+		builderOf(it, args[0]).WriteString(s)
+		return []Value{int64(len(s)), Nil{}}
+	}
+	n["(*strings.Builder).WriteByte"] = func(it *Interp, args []Value) []Value {
+		b, _ := args[1].(int64)
+		builderOf(it, args[0]).WriteByte(byte(b))
+		return []Value{Nil{}}
+	}
+	n["(*strings.Builder).WriteRune"] = func(it *Interp, args []Value) []Value {
+		r, _ := args[1].(int64)
+		builderOf(it, args[0]).WriteRune(rune(r))
+		return []Value{int64(1), Nil{}}
+	}
+	n["(*strings.Builder).Len"] = func(it *Interp, args []Value) []Value {
+		return []Value{int64(builderOf(it, args[0]).Len())}
+	}
+	n["(*strings.Builder).String"] = func(it *Interp, args []Value) []Value {
+		return []Value{builderOf(it, args[0]).String()}
+	}
+	n["(*strings.Builder).Reset"] = func(it *Interp, args []Value) []Value {
+		builderOf(it, args[0]).Reset()
+		return nil
+	}
+	n["(*strings.Builder).Grow"] = func(it *Interp, args []Value) []Value { return nil }
+	n["(error).Error"] = func(it *Interp, args []Value) []Value {
+		if e, ok := args[0].(*Ext); ok {
+			return []Value{strings.TrimPrefix(e.desc, "error: ")}
+		}
+		panic(undecided{"Error() of " + describe(args[0])})
+	}
 	n["fmt.Sprintf"] = func(it *Interp, args []Value) []Value { return []Value{it.sprintf(args)} }
 	n["fmt.Errorf"] = func(it *Interp, args []Value) []Value { return []Value{&Ext{"error: " + it.sprintf(args)}} }
 	n["fmt.Fprintln"] = func(it *Interp, args []Value) []Value { return []Value{int64(0), Nil{}} }
@@ -124,6 +175,86 @@ func installNatives(it *Interp) {
 		}}}
 	}
 	installSetNatives(it)
+	n["slices.AppendSeq"] = func(it *Interp, args []Value) []Value {
+		s, _ := args[0].(*SliceV)
+		out := &SliceV{elems: []Value{}}
+		if s != nil {
+			out.elems = append(out.elems, s.elems...)
+		}
+		yield := &Native{"appendseq-yield", func(it *Interp, a []Value) []Value {
+			out.elems = append(out.elems, a[0])
+			return []Value{true}
+		}}
+		it.callValue(nil, args[1], []Value{yield})
+		return []Value{out}
+	}
+	n["slices.Values"] = func(it *Interp, args []Value) []Value {
+		s, _ := args[0].(*SliceV)
+		return []Value{&Native{"values", func(it *Interp, a []Value) []Value {
+			for i := 0; i < lenOf(s); i++ {
+				res := it.callValue(nil, a[0], []Value{s.elems[i]})
+				if len(res) == 1 {
+					if b, ok := res[0].(bool); ok && !b {
+						break
+					}
+				}
+			}
+			return nil
+		}}}
+	}
+	n["slices.All"] = func(it *Interp, args []Value) []Value {
+		s, _ := args[0].(*SliceV)
+		return []Value{&Native{"all", func(it *Interp, a []Value) []Value {
+			for i := 0; i < lenOf(s); i++ {
+				res := it.callValue(nil, a[0], []Value{int64(i), s.elems[i]})
+				if len(res) == 1 {
+					if b, ok := res[0].(bool); ok && !b {
+						break
+					}
+				}
+			}
+			return nil
+		}}}
+	}
+	n["slices.Reverse"] = func(it *Interp, args []Value) []Value {
+		if s, ok := args[0].(*SliceV); ok && s != nil {
+			for i, j := 0, len(s.elems)-1; i < j; i, j = i+1, j-1 {
+				s.elems[i], s.elems[j] = s.elems[j], s.elems[i]
+			}
+		}
+		return nil
+	}
+	n["slices.Contains"] = func(it *Interp, args []Value) []Value {
+		if s, ok := args[0].(*SliceV); ok && s != nil {
+			for _, e := range s.elems {
+				if valuesEqual(e, args[1]) {
+					return []Value{true}
+				}
+			}
+		}
+		return []Value{false}
+	}
+	n["slices.Index"] = func(it *Interp, args []Value) []Value {
+		if s, ok := args[0].(*SliceV); ok && s != nil {
+			for i, e := range s.elems {
+				if valuesEqual(e, args[1]) {
+					return []Value{int64(i)}
+				}
+			}
+		}
+		return []Value{int64(-1)}
+	}
+	n["slices.IndexFunc"] = func(it *Interp, args []Value) []Value {
+		if s, ok := args[0].(*SliceV); ok && s != nil {
+			for i, e := range s.elems {
+				res := it.callValue(nil, args[1], []Value{e})
+				if b, ok := res[0].(bool); ok && b {
+					return []Value{int64(i)}
+				}
+			}
+		}
+		return []Value{int64(-1)}
+	}
 	n["slices.Clone"] = func(it *Interp, args []Value) []Value {
 		s, _ := args[0].(*SliceV)
 		if s == nil {
@@ -560,42 +691,92 @@ func findRegion(r *Repo) *region {
 	}
 	info := p.TypesInfo
 	start, end := -1, -1
+	// the output buffer: the first local of Compile whose type is, or embeds, bytes.Buffer
+	holdsBuffer := func(t types.Type) bool {
+		if types.TypeString(t, nil) == "bytes.Buffer" {
+			return true
+		}
+		if st, ok := t.Underlying().(*types.Struct); ok {
+			for i := 0; i < st.NumFields(); i++ {
+				if types.TypeString(st.Field(i).Type(), nil) == "bytes.Buffer" {
+					return true
+				}
+			}
+		}
+		return false
+	}
 	for i, st := range fd.Body.List {
-		if ds, ok := st.(*ast.DeclStmt); ok && start < 0 {
-			if gd, ok := ds.Decl.(*ast.GenDecl); ok && gd.Tok == token.VAR {
+		if start >= 0 {
+			break
+		}
+		switch x := st.(type) {
+		case *ast.DeclStmt:
+			if gd, ok := x.Decl.(*ast.GenDecl); ok && gd.Tok == token.VAR {
 				for _, sp := range gd.Specs {
-					vs := sp.(*ast.ValueSpec)
-					if vs.Type != nil && types.TypeString(info.Types[vs.Type].Type, nil) == "bytes.Buffer" {
-						start = i
+					for _, id := range sp.(*ast.ValueSpec).Names {
+						if o := info.Defs[id]; o != nil && holdsBuffer(o.Type()) {
+							start = i
+						}
+					}
+				}
+			}
+		case *ast.AssignStmt:
+			if x.Tok == token.DEFINE {
+				for _, l := range x.Lhs {
+					if id, ok := l.(*ast.Ident); ok {
+						if o := info.Defs[id]; o != nil && holdsBuffer(o.Type()) {
+							start = i
+						}
 					}
 				}
 			}
 		}
 	}
 	if start < 0 {
-		rg.problems = append(rg.problems, "emission region (from `var buffer bytes.Buffer` on) not found in Compile")
+		rg.problems = append(rg.problems, "emission region: Compile declares no output buffer (a local that is or embeds a bytes.Buffer)")
 		return rg
 	}
-	// the region ends behind the last top-level statement that uses the print
-	// helper (the closure that Fprintf's into the buffer), directly or through
-	// the emitter closures; what follows (the -strict handling, formatting and
-	// writing) is the tail
+	// the print helper: a local func(string, ...any) that writes formatted text to
+	// the buffer — a function literal, or a method value whose method does
+	writesBuffer := func(e ast.Expr) bool {
+		switch x := e.(type) {
+		case *ast.FuncLit:
+			return callsFprintf(x.Body, info)
+		case *ast.SelectorExpr:
+			if sel := info.Selections[x]; sel != nil && sel.Kind() == types.MethodVal {
+				if fn, ok := sel.Obj().(*types.Func); ok {
+					for _, f := range p.Syntax {
+						for _, d := range f.Decls {
+							if md, ok := d.(*ast.FuncDecl); ok && md.Body != nil && info.Defs[md.Name] == types.Object(fn.Origin()) {
+								return callsFprintf(md.Body, info)
+							}
+						}
+					}
+				}
+			}
+		}
+		return false
+	}
 	var printObj types.Object
 	for _, st := range fd.Body.List[start:] {
 		as, ok := st.(*ast.AssignStmt)
-		if !ok || len(as.Lhs) != 1 || len(as.Rhs) != 1 {
+		if !ok || len(as.Lhs) != len(as.Rhs) {
 			continue
 		}
-		lit, ok := as.Rhs[0].(*ast.FuncLit)
-		if !ok {
-			continue
-		}
-		if id, _ := as.Lhs[0].(*ast.Ident); id != nil && printObj == nil {
-			if sig, ok := info.Types[lit].Type.(*types.Signature); ok && sigString(sig) == "(string, ...any)" && callsFprintf(lit, info) {
-				printObj = info.Defs[id]
-				if printObj == nil {
-					printObj = info.Uses[id]
-				}
+		for k, l := range as.Lhs {
+			id, _ := l.(*ast.Ident)
+			if id == nil || printObj != nil {
+				continue
+			}
+			o := info.Defs[id]
+			if o == nil {
+				o = info.Uses[id]
+			}
+			if o == nil {
+				continue
+			}
+			if sig, ok := o.Type().Underlying().(*types.Signature); ok && sigString(sig) == "(string, ...any)" && writesBuffer(as.Rhs[k]) {
+				printObj = o
 			}
 		}
 	}
@@ -615,9 +796,10 @@ func findRegion(r *Repo) *region {
 		}
 	}
 	if end < 0 {
-		rg.problems = append(rg.problems, "emission region: no statement uses the print helper that writes to the output buffer")
+		rg.problems = append(rg.problems, "emission region: no statement uses a print helper that writes to the output buffer")
 		return rg
 	}
+	rg.printVar = printObj
 	rg.stmts = fd.Body.List[start:end]
 	rg.full = fd.Body.List[:end]
 	rg.tail = fd.Body.List[end:]
@@ -646,8 +828,6 @@ func findRegion(r *Repo) *region {
 			rg.compileLit, rg.compileVar = lit, obj
 		case ps == "(*node)" && rg.printRule == nil:
 			rg.printRule = lit
-		case ps == "(string, ...any)" && rg.printVar == nil && callsFprintf(lit, info):
-			rg.printVar = obj
 		case ps == "(uint)" && assignsMapTrue(lit):
 			rg.jumpLit, rg.jumpVar = lit, obj
 		}
@@ -685,9 +865,9 @@ func sigString(sig *types.Signature) string {
 
 // callsFprintf: the closure writes formatted text to the output buffer —
 // fmt.Fprintf(&buffer, …), or a Write* method of a bytes.Buffer.
-func callsFprintf(lit *ast.FuncLit, info *types.Info) bool {
+func callsFprintf(body ast.Node, info *types.Info) bool {
 	found := false
-	ast.Inspect(lit.Body, func(n ast.Node) bool {
+	ast.Inspect(body, func(n ast.Node) bool {
 		if ce, ok := n.(*ast.CallExpr); ok {
 			if se, ok := ce.Fun.(*ast.SelectorExpr); ok {
 				if f, ok := info.Uses[se.Sel].(*types.Func); ok {
